@@ -40,6 +40,11 @@ def run_history_case(rng, res: CaseResult, want, opts, feat=None, n_variants=3, 
     elif fam < 0.3 and not name_mode:
         spec, roots = S.twin_spec(rng, feat)
         res.count('twin_family_histories')
+    elif fam < 0.37 and not name_mode:
+        # a namespace word repeated along a mount path (W::leaf next to W::W::leaf), contexts addressing one of them
+        spec, root_ = S.repeated_ns_spec(rng)
+        roots = [root_, {'file': root_['file']}]
+        res.count('repeated_namespace_family_histories')
     else:
         spec = S.gen_spec(rng, feat)
         roots = make_variants(rng, spec, rng.randint(2 if name_mode else 1, n_variants), feat, prefer_file_variants=name_mode)
